@@ -121,4 +121,37 @@ theorem execD_broadcast_x2 (vl b : Nat) (disp : Int) (d gb : Nat) (bs : List Nat
   simp [execD, ins, R, M, exBroadcastMem, hvl, effAddr, getG, setV, hb, hd, loadLE, hload']
 
 end
+def K (n : Nat) : Opd := .reg (.k n)
+
+section
+variable (g v k : List Nat) (fl : Flags) (mem : List Region) (syms frame : List (String × Nat))
+
+theorem execD_movq_imm (imm : Int) (d : Nat) (hd : d < g.length) :
+    execD ⟨g, v, k, fl, mem, syms, frame⟩ (ins .MOVQ [.imm imm, G d] 0)
+      = .ok ⟨g.set d (imm64 imm), v, k, fl, mem, syms, frame⟩ := by
+  simp [execD, ins, G, exMov, setG, hd]
+
+theorem execD_kmovw (a d ga : Nat) (ha : g[a]? = some ga) (hd : d < k.length) :
+    execD ⟨g, v, k, fl, mem, syms, frame⟩ (ins .KMOVW [G a, K d] 0)
+      = .ok ⟨g, v, k.set d (ga % 2 ^ 16), fl, mem, syms, frame⟩ := by
+  simp [execD, ins, G, K, exKmovw, getG, setK, ha, hd]
+
+theorem execD_subq_imm (imm : Int) (d old : Nat) (hold : g[d]? = some old) (hd : d < g.length) :
+    execD ⟨g, v, k, fl, mem, syms, frame⟩ (ins .SUBQ [.imm imm, G d] 0)
+      = .ok ⟨g.set d (subF 8 old (imm64 imm)).1, v, k, (subF 8 old (imm64 imm)).2, mem, syms, frame⟩ := by
+  have hold' : g[d] = old := by rw [List.getElem?_eq_getElem hd] at hold; exact Option.some.inj hold
+  simp [execD, ins, G, exAlu, getG, setG, hold', hd, alu, withFlags]
+
+/-- VMOVDQU32 X, K, m128 with the opmask 1: only dword 0 is stored -/
+theorem execD_vmov_store_k1 (a kk b : Nat) (disp : Int) (gb av : Nat) (mem' : List Region)
+    (hb : g[b]? = some gb) (ha : v[a]? = some av) (hk : k[kk]? = some 1)
+    (hstore : writeMem mem ((gb + 0 + imm64 disp) % 2 ^ 64) (lanes 8 4 (lane 32 0 av)) = .ok mem') :
+    execD ⟨g, v, k, fl, mem, syms, frame⟩ (ins .VMOVDQU32 [R a, K kk, M b disp] 16)
+      = .ok ⟨g, v, k, fl, mem', syms, frame⟩ := by
+  have hstore' : writeMem mem ((gb + imm64 disp) % 18446744073709551616) (lanes 8 4 (lane 32 0 av)) = .ok mem' := by
+    simpa using hstore
+  simp [execD, ins, R, K, M, exVmovdqu32, validVl, effAddr, getG, getV, getK, hb, ha, hk, storeMasked, storeLE,
+    List.range, List.range.loop, List.foldlM, hstore']
+
+end
 end SMGo.Proofs.ISAVal
